@@ -194,6 +194,10 @@ def cases(draw, family=None, max_cells=8, max_total=512, jit=False):
             "dist": draw(st.sampled_from(["normal", "uniform", "int"])),
             "scale": draw(st.sampled_from([1.0, 1.0, 10.0, 100.0, 0.1])),
             "method": draw(st.sampled_from([None, None, "auto", "scipy"]))}
+    if fam == "random":
+        # right-hand side field of another real dtype (after missed seed C18-7: the result field took the dtype
+        # of the right-hand side, so the float64 solution was rounded to single precision / truncated to integers)
+        case["rhs_dtype"] = draw(st.sampled_from([None, None, "f4", "i8"]))
     if fam == "incompatible":
         case["shift"] = draw(st.sampled_from([1.0, -1.0, 0.05, -0.3, 7.0]))
     return case
@@ -319,6 +323,11 @@ def check_solver(case):
             if null > 1e-9:
                 raise HarnessError(f"volumes are not a left null vector of the reference operator ({null:.3g})")
             rhs_data = rhs_data + case["shift"] * (1.0 + np.abs(rhs_data).max())
+    rhs_dtype = case.get("rhs_dtype")
+    if rhs_dtype == "f4":
+        rhs_data = rhs_data.astype(np.float32).astype(float)  # values that a float32 field holds exactly
+    elif rhs_dtype == "i8":
+        rhs_data = np.rint(rhs_data)
     if not np.all(np.isfinite(rhs_data)):
         raise HarnessError("non-finite right-hand side")
     kind, cond = classify(M, v, rhs_data, gf.weight_bound(gspec, 2))
@@ -338,7 +347,9 @@ def check_solver(case):
             if fam == "laplace":
                 u = pde.solve_laplace_equation(grid, bc_obj)
             else:
-                u = pde.solve_poisson_equation(pde.ScalarField(grid, rhs_data.copy()), bc_obj, **kwargs)
+                np_dtype = {None: float, "f4": np.float32, "i8": np.int64}[rhs_dtype]
+                rhs_field = pde.ScalarField(grid, rhs_data.astype(np_dtype), dtype=np_dtype)
+                u = pde.solve_poisson_equation(rhs_field, bc_obj, **kwargs)
         except RuntimeError as e:
             if type(e) is not RuntimeError:  # e.g. NotImplementedError: not the documented report
                 raise
@@ -346,6 +357,8 @@ def check_solver(case):
 
     hole = "radius" in gspec and gspec["radius"][0] > 0
     labels = [f"grid:{gspec['cls']}{len(shape)}d", f"family:{fam}", f"style:{style}"]
+    if case.get("rhs_dtype"):
+        labels.append(f"rhs-dtype:{case['rhs_dtype']}")
     if hole:
         labels.append("grid:annular")
     if any(gspec["periodic"]):
